@@ -138,9 +138,12 @@ package parser
 // Returned token slices belong to the caller (C09): they are allocated by the call, never a view of the converter's
 // scratch buffer (which the next conversion overwrites).
 //@ func (*tokenConverter).convert
+//@   inherit
 //@   ensures @C09 implies(err == nil, isnew(result0.Tokens) && isnew(result0.PositionMapping))
 //@   loop * invariant @C09 isnew(positions)
 //@ func convertModelTokens
+//@   inherit
 //@   ensures @C09 implies(err == nil, isnew(result0))
 //@ func convertModelTokensWithPositions
+//@   inherit
 //@   ensures @C09 implies(err == nil, isnew(result0.Tokens) && isnew(result0.PositionMapping))
